@@ -350,11 +350,54 @@ func checkVersionValidate(c *Ctx, vf *ssa.Function, rule string) {
 			okNil = true
 		}
 	}
+	// the key checks may live in a same-package helper that is handed v.keys and whose error is propagated
+	type keyHelper struct {
+		fn    *ssa.Function
+		param *ssa.Parameter
+	}
+	var keyHelpers []keyHelper
+	for _, cl := range Calls(vf) {
+		h := cl.Instr.Common().StaticCallee()
+		if h == nil || len(h.Blocks) == 0 || fnPkgPath(h) != fnPkgPath(vf) || cl.Value() == nil || !errorPropagated(cl.Value(), nil) {
+			continue
+		}
+		for ai, a := range cl.Instr.Common().Args {
+			if hasField(a, "keys") && ai < len(h.Params) {
+				keyHelpers = append(keyHelpers, keyHelper{h, h.Params[ai]})
+			}
+		}
+	}
+	for _, kh := range keyHelpers {
+		fromParam := func(v ssa.Value) bool {
+			if isNilConst(v) {
+				return false
+			}
+			for _, o := range origins(v) {
+				if o.Kind == "param" && o.Name == kh.param.Name() {
+					return true
+				}
+			}
+			return false
+		}
+		for _, g := range cmpGuards(kh.fn, nil) {
+			gg, o := g.oriented(fromParam)
+			if o && isNilConst(gg.Y) && gg.Op == token.EQL {
+				okNil = true
+			}
+		}
+	}
 	c.Check(okNil, rule, "version.Validate:keys-non-nil", vpos, "a nil key is refused", "a null entry in the key list is not refused before it is dereferenced (a remote can serve \"pub_keys\":[null])")
 	okK := false
 	for _, cl := range CallsNamed(vf, "entities/identity.Key.Validate") {
 		if cl.Value() != nil && errorPropagated(cl.Value(), nil) {
 			okK = true
+		}
+	}
+	for _, kh := range keyHelpers {
+		for _, cl := range CallsNamed(kh.fn, "entities/identity.Key.Validate") {
+			if cl.Value() != nil && errorPropagated(cl.Value(), nil) {
+				okK = true
+			}
 		}
 	}
 	c.Check(okK, rule, "version.Validate:keys", vpos, "each key validated", "keys are not validated")
